@@ -31,7 +31,12 @@ REQUIRED = ["accepted_create_sound", "accepted_create_signed_by_did_key", "accep
             "managerUpdate_eq_tail", "publishTail_sound", "managerOnUpdate_sound", "managerOnUpdate_deactivated_publishes_nothing",
             "onUpdate_agrees_with_update", "managerOnCreate_sound", "commit_template_kind", "created_template_accepted_iff",
             "namedVM_passes_validator", "newDocument_accepted", "deactivationDoc_is_deactivated",
-            "fact_commit_dispatch", "fact_on_update_steps", "fact_on_create_template", "fact_kid_naming"]
+            "fact_commit_dispatch", "fact_on_update_steps", "fact_on_create_template", "fact_kid_naming",
+            # maintenance calls (NutsProofs.Props.C09Maintain): RemoveVerificationMethod (+ go-did's removal), IsCommitted
+            "removeVM_absent", "removeVM_keeps_others", "removeVM_length_eq_iff", "removeVM_preserves_validity",
+            "managerRemoveVM_sound", "managerRemoveVM_noop", "managerRemoveVM_unknown", "removed_method_no_longer_authorises",
+            "isCommitted_true_iff", "isCommitted_errors", "isCommitted_reads_what_update_reads",
+            "fact_remove_vm_steps", "fact_godid_remove_vm", "fact_is_committed"]
 
 FULL_DOC_RE = re.compile(r"doc=(\S+?)\{Context:\[[^\]]*\];Controller:\[([^\]]*)\];VerificationMethod:\[([^\]]*)\];Authentication:\[[^\]]*\];"
                          r"AssertionMethod:\[[^\]]*\];CapabilityInvocation:\[([^\]]*)\];CapabilityDelegation:\[[^\]]*\];KeyAgreement:\[[^\]]*\];Service:\[([^\]]*)\]")
@@ -232,7 +237,7 @@ def embedded_illformed(doc):
 
 def run(ctx):
     ctx.facts()
-    thms = ctx.build_and_audit(["NutsProofs.Props.C09", "NutsProofs.Props.C09Entry", "NutsProofs.Props.C09Manager", "NutsProofs.Props.C09Commit"])
+    thms = ctx.build_and_audit(["NutsProofs.Props.C09", "NutsProofs.Props.C09Entry", "NutsProofs.Props.C09Manager", "NutsProofs.Props.C09Commit", "NutsProofs.Props.C09Maintain"])
     for r in REQUIRED:
         if not any(t.endswith("Props." + r) for t in thms):
             ctx.oblige("thm-present:" + r, False, "theorem missing or its module does not build")
@@ -296,6 +301,7 @@ def run(ctx):
     kinds, classes, labels = Counter(), Counter(), Counter()
     distinct = set()
     own_created = Counter()   # how the ambassador answered the creations the node published itself
+    maintain = Counter()   # round 3: RemoveVerificationMethod / IsCommitted outcomes
     mgr_classes, published = Counter(), Counter()   # Manager.Update outcomes; how the ambassador answered what the node published
     entry_hits = Counter()  # executed failing store calls per fault kind
     entry = Counter()      # entry layer: (event type class, payload type class, fault) -> outcome kind
@@ -377,6 +383,52 @@ def run(ctx):
                 pass   # the change log held a document without verification method: index expression in onCreate (modelled; not a C09 matter)
             elif mcls.startswith("panic") or "MISMATCH" in mcls:
                 report("manager-" + re.sub(r"[^a-zA-Z:-]", "", mcls)[:60], "Manager (" + via + "): " + mcls, i)
+            if via == "iscommitted":
+                # ---- Manager.IsCommitted: committed <=> the latest stored version (deactivated or not) carries the hash of the raw document
+                cm = re.search(r" committed=(true|false)", mrest)
+                latest = obs_map(cur_obs).get(op["id"], {}).get("ad")
+                if mcls == "ok" and cm and latest is not None:
+                    hm = re.search(r" hash=(\S+)", latest) if latest.startswith("ok ") else None
+                    same = bool(hm) and op.get("hash", "").startswith(hm.group(1))
+                    maintain["iscommitted:" + cm.group(1) + ("" if latest.startswith("ok ") else ":unknown-did")] += 1
+                    if (cm.group(1) == "true") != same:
+                        report("is-committed-disagrees-with-the-store",
+                               f"Manager.IsCommitted answered {cm.group(1)} for a change of {op['id']} with document hash {op.get('hash', '')[:10]}, "
+                               f"the latest stored version is {('hash ' + hm.group(1)) if hm else 'absent'}", i)
+                elif mcls == "ok" and cm:
+                    maintain["iscommitted:" + cm.group(1) + ":did-never-observed"] += 1
+                    if cm.group(1) == "true" and op["id"] not in cur_obs:
+                        report("is-committed-for-a-did-the-store-does-not-know", f"Manager.IsCommitted answered true for {op['id']}, which no observation of the store shows", i)
+                else:
+                    maintain["iscommitted:" + mcls] += 1
+                continue
+            if via == "rmvm":
+                # ---- Manager.RemoveVerificationMethod: what is published is the resolved version minus exactly that method, everywhere
+                rm = op.get("rm", "")
+                view = op.get("doc")
+                listed = bool(view) and any(vm["id"] == rm for vm in view["vms"])
+                maintain["rmvm:" + ("published" if mkid else "nothing" if mcls == "ok" else mcls) + (":listed" if listed else ":not-listed")] += 1
+                if mcls == "ok" and mkid is None:
+                    if listed:
+                        report("remove-verification-method-silently-keeps-the-method",
+                               f"Manager.RemoveVerificationMethod answered nil without publishing although {rm} is a verification method of the latest version of {op['id']}", i)
+                    continue
+                if mcls == "ok":
+                    sm = re.search(r" doc=vm\[([^\]]*)\]ci\[([^\]]*)\]", mrest)
+                    pub_vm = [x for x in sm.group(1).split(",") if x] if sm else None
+                    pub_ci = [x for x in sm.group(2).split(",") if x] if sm else None
+                    if not listed:
+                        report("remove-verification-method-publishes-without-a-change",
+                               f"Manager.RemoveVerificationMethod published an update of {op['id']} although {rm} is not one of its verification methods", i)
+                    elif pub_vm is None or rm in pub_vm or rm in pub_ci:
+                        report("removed-verification-method-still-published",
+                               f"Manager.RemoveVerificationMethod({rm}) published a document that still lists the method (verificationMethod {pub_vm}, capabilityInvocation {pub_ci})", i)
+                    elif pub_vm != [vm["id"] for vm in view["vms"] if vm["id"] != rm] or pub_ci != [vm["id"] for vm in view["capInv"] if vm["id"] != rm]:
+                        report("remove-verification-method-removes-something-else",
+                               f"Manager.RemoveVerificationMethod({rm}) published verificationMethod {pub_vm} / capabilityInvocation {pub_ci}: not the resolved version minus that method", i)
+                    # the generic oracles below judge the PUBLISHED document: the view minus the method (filtered here, by id)
+                    op = dict(op)
+                    op["doc"] = dict(view, **{k: [vm for vm in view[k] if vm["id"] != rm] for k in ("vms", "auth", "assertion", "keyAgr", "capInv", "capDel")})
             if via == "bogus" and mcls == "ok":
                 report("commit-publishes-for-an-unknown-change-type", "Manager.Commit handed a transaction to the network for a change type it does not know", i)
             if via == "updated" and mcls == "ok" and mkid is None:
@@ -631,6 +683,7 @@ def run(ctx):
                                      "entry_layer_events(event type, payload type, store fault, outcome)": {" | ".join(k): v for k, v in sorted(entry.items())},
                                      "executed_failing_store_calls": dict(sorted(entry_hits.items())),
                                      "manager_update_outcomes": dict(sorted(mgr_classes.items())),
+                                     "maintenance_calls(RemoveVerificationMethod, IsCommitted)": dict(sorted(maintain.items())),
                                      "ambassador_verdict_on_published_updates": dict(sorted(published.items())),
                                      "ambassador_verdict_on_own_creations": dict(sorted(own_created.items())),
                                      "reprocess_runs": n_reprocess, "reprocess_runs_that_changed_the_store": n_reprocess_changed,
